@@ -2,7 +2,10 @@ module dvharness
 
 go 1.21
 
-require github.com/usnistgov/dastard v0.0.0
+require (
+	github.com/spf13/viper v1.18.2
+	github.com/usnistgov/dastard v0.0.0
+)
 
 require (
 	github.com/davecgh/go-spew v1.1.2-0.20180830191138-d8f796af33cc // indirect
@@ -19,7 +22,6 @@ require (
 	github.com/spf13/afero v1.11.0 // indirect
 	github.com/spf13/cast v1.6.0 // indirect
 	github.com/spf13/pflag v1.0.5 // indirect
-	github.com/spf13/viper v1.18.2 // indirect
 	github.com/subosito/gotenv v1.6.0 // indirect
 	golang.org/x/sys v0.20.0 // indirect
 	golang.org/x/text v0.15.0 // indirect
